@@ -97,6 +97,9 @@ def build_finished(it, env, P, conf, large, variant):
         tlv, tspec, _ = entity_id_tlv(it, env, P, "fault_entity")
         pk["fault_location"] = tlv
         body += tspec
+    if variant == "no TLVs (None)":
+        # the constructor and the setter accept None for the response list (Optional in the setter's signature)
+        pk["file_store_responses"] = NONE
     if variant in ("fault location omitted", "fault location omitted (unsupported checksum type)"):
         # NO_ERROR / UNSUPPORTED_CHECKSUM_TYPE (727.0-B-5 5.2.3): a stored fault location is neither packed nor counted
         code = 0 if variant == "fault location omitted" else 0b1011
@@ -181,7 +184,7 @@ class Kind:
 
 DIRECTIVES = [
     Kind("EOF", f"{PDU}.eof.EofPdu", 0x04, build_eof, ("plain", "fault location")),
-    Kind("Finished", f"{PDU}.finished.FinishedPdu", 0x05, build_finished, ("plain", "two responses", "fault location", "fault location omitted", "fault location omitted (unsupported checksum type)")),
+    Kind("Finished", f"{PDU}.finished.FinishedPdu", 0x05, build_finished, ("plain", "no TLVs (None)", "two responses", "fault location", "fault location omitted", "fault location omitted (unsupported checksum type)")),
     Kind("ACK", f"{PDU}.ack.AckPdu", 0x06, build_ack, ("ack of Finished", "ack of EOF")),
     Kind("Metadata", f"{PDU}.metadata.MetadataPdu", 0x07, build_metadata, ("plain", "no file names", "two options")),
     Kind("NAK", f"{PDU}.nak.NakPdu", 0x08, build_nak, ("plain", "two segment requests")),
